@@ -68,6 +68,14 @@ def check(rep, tier, seed):
         for sh in ([3], [2, 2]):
             vals = [random_bits(rng) for _ in range(elements(sh) - 1)] + [(top << 56) | rng.getrandbits(56)]
             cases_w.append("npyw %s %s" % (fmt(sh), ",".join(tok(v) for v in vals)))
+    # negative zero, and negatives so small that they print as -0.000..., at the first and at later positions
+    NEGZ = 1 << 63
+    for sh in ([4], [2, 3]):
+        for _ in range(2):
+            vals = [rng.choice([NEGZ, 0, NEGZ | random_bits(rng, "small") >> 12 if False else NEGZ, 0x3ff0000000000000, 0xbe112e0be826d695, 0x3e112e0be826d695, random_bits(rng)]) for _ in range(elements(sh))]
+            cases_w.append("npyw %s %s" % (fmt(sh), ",".join(tok(v) for v in vals)))
+            for p_ in (0, 3, 6, 9):
+                cases_t.append("textw %s %d %s" % (fmt(sh), p_, ",".join(tok(v) for v in vals)))
     mo, outs = compare_cases(rep, "npy-writer", cases_w, nontrivial=lambda c, m: "," in c.split()[1],
                              classify=lambda c, m, i: "npy-writer:" + ("panic" if "PANIC" in i else "bytes"), spec=True, both_builds=(tier == "thorough"))
     # read back what the implementation wrote, with the implementation and with the model
